@@ -24,7 +24,7 @@ EXTENDS Universe, Json, IOUtils
 D == JsonDeserialize(IOEnv.TRACE_FILE)
 Cases == D.cases
 Events == D.events
-MathFile == IF "MATH_FILE" \in DOMAIN IOEnv THEN JsonDeserialize(IOEnv.MATH_FILE) ELSE [k \in {} |-> 0]
+MathFile == D.math     \* reference table for C12 (empty otherwise), see Query.tla MathApply
 
 VARIABLES c,       \* case index
           pc,      \* "new" | "translated" | "compiled" | "booked" | "dead" | "done"
